@@ -11,6 +11,7 @@ re-inference of the pruned program and `Value::prune` of the remaining values, f
 type of its node.  `Covers idx r`: exactly one value per witness node.
 -/
 import SimplicityModel.RoutesProps
+import SimplicityModel.RoutesExecProps
 
 namespace Props.C12
 open Routes Prog BM4
@@ -53,7 +54,7 @@ theorem finalize_unpruned_values (jt : JetTypes) (p : Plan) (program : Bool) (ca
 target type in the prune order (in particular: of exactly the target type), the route succeeds. -/
 theorem finalize_unpruned_accepts (jt : JetTypes) (p : Plan) (program : Bool) (cand : Nat → Option Val)
     (ar : Arrows) (hi : infer jt p program = .ok ar)
-    (hc : ∀ i v, cand i = some v → ∃ t, HasTy v t ∧ Le (tgtOf ar i) t) :
+    (hc : ∀ i v, cand i = some v → ∃ t, HasTy v t ∧ Routes.Le (tgtOf ar i) t) :
     ∃ r, routeU jt p program cand = .ok ar r := by
   have key : ∀ idx : List Nat, ∃ r, convertAll ar cand idx = some r := by
     intro idx
@@ -149,7 +150,7 @@ is driver glue, not a theorem; which branches are removed is taken from the real
 theorem pruned_types_smaller (jt : JetTypes) (leak : Bool) (p : Plan) (program : Bool) (c : Cut)
     (ar ar' : Arrows)
     (h : infer jt p program = .ok ar) (h' : inferCut jt leak p program c = .ok ar') :
-    ∀ i, Le (tgtOf ar' i) (tgtOf ar i) :=
+    ∀ i, Routes.Le (tgtOf ar' i) (tgtOf ar i) :=
   inferCut_le h h'
 
 /-- **Ok or error, after pruning**: the pruned program carries one value per remaining witness
@@ -250,6 +251,130 @@ theorem finalize_pruned_values_partial (jt : JetTypes) (leak : Bool) (p : Plan) 
   | fuel => rw [hu] at h; cases h
   | panic => rw [hu] at h; cases h
 
+/-! ### route 2 with the run modelled: `finalize_pruned` as one function
+
+`Routes.finalizePruned` (`RoutesExec.lean`) is `finalize_pruned(env)` with nothing supplied from
+outside but the environment: `finalize_unpruned`; the unpruned program elaborated to the Bit
+Machine model's term and run on the unit input with the tracker (`trackedRun`: `Prog.elabNode`,
+`Prog.evalT`); run failed ⇒ error; run succeeded ⇒ the `prune_case` table on the tracker's record
+(`sidesOf`), reachability (`cutOf`), re-inference, `Value::prune` of the remaining values (`routeP`).
+`RunEnv` = what the run depends on besides the program: node identities (IHR, abstract), commitment
+roots for `disconnect`, the jets of the environment.  Hypothesis `planOK p`: children precede
+parents, no wire-only node, words have `2^n` bits — what the plan parser guarantees. -/
+
+/-- **Ok or error, `finalize_pruned` as a whole.**  The outcome is never `panic`.  A returned
+program is the one pruning by the record `tr` of the model's own successful run gives: its types
+are the re-inferred ones, it carries exactly one value per remaining witness node, each of the
+node's re-inferred target type.  An error is returned exactly when `finalize_unpruned` reports one
+or the run fails; the program always has a term (`illTyped` only when the plan has no typing). -/
+theorem finalize_pruned_ok_or_error (jt : JetTypes) (leak : Bool) (p : Plan) (cand : Nat → Option Val)
+    (re : RunEnv) (hok : planOK p = true) :
+    finalizePruned jt leak p true cand re ≠ .panic ∧
+    (∀ ar' r', finalizePruned jt leak p true cand re = .ok ar' r' →
+      ∃ ar r tr, routeU jt p true cand = .ok ar r ∧ trackedRun p ar r re = .ok tr ∧
+        inferCut jt leak p true (cutOf p (sidesOf re.ids tr.sides)) = .ok ar' ∧
+        Covers ((witnessIdx p).filter (cutOf p (sidesOf re.ids tr.sides)).keep) r' ∧
+        WitnessTyped ar' r') ∧
+    (finalizePruned jt leak p true cand re = .err ↔
+      routeU jt p true cand = .err ∨
+      ∃ ar r k, routeU jt p true cand = .ok ar r ∧ trackedRun p ar r re = .failed k) ∧
+    (finalizePruned jt leak p true cand re = .illTyped ↔ routeU jt p true cand = .illTyped) := by
+  cases hu : routeU jt p true cand with
+  | ok ar r =>
+    obtain ⟨t, _, _, hm⟩ := trackedRun_machine re hok hu
+    cases hr : trackedRun p ar r re with
+    | ok tr =>
+      rw [finalizePruned_of_ok hu hr]
+      obtain ⟨hP1, hP2⟩ := routeP_of_ok (leak := leak) (cutOf p (sidesOf re.ids tr.sides)) hu
+      refine ⟨finalize_pruned_never_panics_partial jt leak p true cand _, ?_, ?_, ?_⟩
+      · intro ar' r' h
+        exact ⟨ar, r, tr, rfl, hr, finalize_pruned_ok_or_error_partial jt leak p true cand _ ar' r' h⟩
+      · constructor
+        · intro h; exact absurd h hP1
+        · rintro (h | ⟨ar1, r1, k, h1, h2⟩)
+          · cases h
+          · simp only [Outcome.ok.injEq] at h1
+            obtain ⟨rfl, rfl⟩ := h1
+            rw [hr] at h2; cases h2
+      · constructor
+        · intro h; exact absurd h hP2
+        · intro h; cases h
+    | failed k =>
+      rw [finalizePruned_of_failed hu hr]
+      refine ⟨by simp, (fun _ _ h => by cases h), ?_, ?_⟩
+      · exact ⟨fun _ => .inr ⟨ar, r, k, rfl, hr⟩, fun _ => rfl⟩
+      · constructor <;> intro h <;> cases h
+    | noTerm => rw [hr] at hm; exact hm.elim
+  | err =>
+    rw [finalizePruned_of_not_ok (by intro ar r h; rw [hu] at h; cases h), hu]
+    refine ⟨by simp, (fun _ _ h => by cases h), ⟨fun _ => .inl rfl, fun _ => rfl⟩, ?_⟩
+    constructor <;> intro h <;> cases h
+  | illTyped =>
+    rw [finalizePruned_of_not_ok (by intro ar r h; rw [hu] at h; cases h), hu]
+    refine ⟨by simp, (fun _ _ h => by cases h), ⟨(fun h => by cases h), ?_⟩, by simp⟩
+    rintro (h | ⟨_, _, _, h, _⟩) <;> cases h
+  | fuel =>
+    rw [finalizePruned_of_not_ok (by intro ar r h; rw [hu] at h; cases h), hu]
+    refine ⟨by simp, (fun _ _ h => by cases h), ⟨(fun h => by cases h), ?_⟩, ?_⟩
+    · rintro (h | ⟨_, _, _, h, _⟩) <;> cases h
+    · constructor <;> intro h <;> cases h
+  | panic => exact absurd hu (routeU_ne_panic _ _ _ _)
+
+/-- **Never a panic, the Bit Machine run included.**  Besides the `.expect(..)`s of pruning
+(`finalize_pruned_never_panics_partial`): the program `finalize_unpruned` hands to the Bit Machine
+has a term `t : 1 ⊢ 1` that is well typed (`WT`), so the machine `for_program` sizes and `exec` runs
+(`BM4.execProgram`, C05's model, in which every out-of-bounds access, missing frame and width
+mismatch is the outcome `crash`) does not crash; it returns an output exactly when the evaluator
+with the tracker — the run `finalizePruned` prunes by — succeeds, and fails exactly when that fails. -/
+theorem finalize_pruned_never_panics (jt : JetTypes) (leak : Bool) (p : Plan) (cand : Nat → Option Val)
+    (re : RunEnv) (hok : planOK p = true) :
+    finalizePruned jt leak p true cand re ≠ .panic ∧
+    ∀ ar r, routeU jt p true cand = .ok ar r →
+      ∃ t : Term .one .one,
+        Prog.elabNode (envOf p ar r re) (p.size + 1) (p.size - 1) = some ⟨.one, .one, t⟩ ∧ WT t ∧
+        execProgram t .unit ≠ .error .crash ∧
+        ((∃ bits, execProgram t .unit = .ok bits) ↔ ∃ tr, trackedRun p ar r re = .ok tr) ∧
+        (execProgram t .unit = .error .fail ↔ ∃ k, trackedRun p ar r re = .failed k) := by
+  refine ⟨(finalize_pruned_ok_or_error jt leak p cand re hok).1, fun ar r hu => ?_⟩
+  obtain ⟨t, helab, hwt, hm⟩ := trackedRun_machine re hok hu
+  refine ⟨t, helab, hwt, ?_⟩
+  cases hr : trackedRun p ar r re with
+  | ok tr =>
+    rw [hr] at hm
+    obtain ⟨bits, hb⟩ := hm
+    rw [hb]
+    exact ⟨by simp, ⟨fun _ => ⟨tr, rfl⟩, fun _ => ⟨bits, rfl⟩⟩, by simp⟩
+  | failed k =>
+    rw [hr] at hm
+    simp only at hm
+    rw [hm]
+    exact ⟨by simp, by simp, ⟨fun _ => ⟨k, rfl⟩, fun _ => rfl⟩⟩
+  | noTerm => rw [hr] at hm; exact hm.elim
+
+/-- **Which value, `finalize_pruned` as a whole**: the candidate pruned directly to the type the
+pruned program gives the node, or the zero value of that type. -/
+theorem finalize_pruned_values (jt : JetTypes) (leak : Bool) (p : Plan) (cand : Nat → Option Val)
+    (re : RunEnv) (ar' : Arrows) (r' : Witnesses)
+    (h : finalizePruned jt leak p true cand re = .ok ar' r') :
+    ∀ x ∈ r', match cand x.1 with
+      | some v => prune v (tgtOf ar' x.1) = some x.2
+      | none => x.2 = zero (tgtOf ar' x.1) := by
+  unfold finalizePruned at h
+  cases hu : routeU jt p true cand with
+  | ok ar r =>
+    rw [hu] at h
+    simp only at h
+    cases hr : trackedRun p ar r re with
+    | ok tr =>
+      rw [hr] at h
+      exact finalize_pruned_values_partial jt leak p true cand _ ar' r' h
+    | failed k => rw [hr] at h; cases h
+    | noTerm => rw [hr] at h; cases h
+  | err => rw [hu] at h; cases h
+  | illTyped => rw [hu] at h; cases h
+  | fuel => rw [hu] at h; cases h
+  | panic => rw [hu] at h; cases h
+
 /-! ### the pruned program's own serialisation
 
 Full statement: *the serialisation of the program `finalize_pruned` returns decodes, to the same
@@ -332,6 +457,91 @@ theorem witness_write_width_partial (ar : Arrows) (r : Witnesses) (h : WitnessTy
     ∀ iv ∈ r, (padded (tgtOf ar iv.1) iv.2).length = (tgtOf ar iv.1).bw :=
   fun iv hm => padded_length (h iv hm)
 
+/-- **What a witness node writes** (the full statement, on the Bit Machine model of C05).  Let a
+program — plan `p` with arrows `ar` — carry one value per listed witness node, each of its node's
+target type (the invariant; `idx` = all witness nodes for `finalize_unpruned`/decoding, the
+remaining ones after pruning).  Then every carried `(i, v)`
+
+* elaborates, at node `i`, to the machine's `witness` instruction with exactly the value `v` at
+  exactly the node's arrow, and
+* executed in any machine state that holds the output area of that arrow's target in its write
+  frame (`Pre`, `Cap`: the state every well-typed run reaches the node in, `run_spec`), succeeds,
+  advances the write cursor by exactly `bw(target type)`, writes exactly the padded encoding of
+  `v` — which is `bw(target type)` bits long — and changes no other cell. -/
+theorem witness_write_width (p : Plan) (ar : Arrows) (idx : List Nat) (r : Witnesses) (re : RunEnv)
+    (hsz : ar.size = p.size) (hc : Covers idx r) (hn : idx.Nodup)
+    (hidx : ∀ i ∈ idx, p[i]? = some .witness) (ht : WitnessTyped ar r) :
+    ∀ iv ∈ r, ∀ f : Nat,
+      Prog.elabNode (envOf p ar r re) (f + 1) iv.1 =
+        some ⟨srcOf ar iv.1, tgtOf ar iv.1, Term.witness iv.2⟩ ∧
+      ∀ (m : M) (inp : Val), Pre m (srcOf ar iv.1) (tgtOf ar iv.1) inp →
+        Cap m (Term.witness (a := srcOf ar iv.1) (b := tgtOf ar iv.1) iv.2) →
+        ∃ m', run (Term.witness (a := srcOf ar iv.1) (b := tgtOf ar iv.1) iv.2) m = .ok m' ∧
+          m'.write = advW (tgtOf ar iv.1).bw m.write ∧
+          (padded (tgtOf ar iv.1) iv.2).length = (tgtOf ar iv.1).bw ∧
+          slice m'.cells (wcur m) (tgtOf ar iv.1).bw = padded (tgtOf ar iv.1) iv.2 ∧
+          ∀ i, (i < wcur m ∨ wcur m + (tgtOf ar iv.1).bw ≤ i) → m'.cells i = m.cells i := by
+  intro iv hm f
+  refine ⟨witness_elab re hsz hc hn hidx ht hm f, fun m inp pre hcap => ?_⟩
+  obtain ⟨m', h1, h2, _, _, h5, h6, h7⟩ := witness_step iv.2 (ht iv hm) m inp pre hcap
+  exact ⟨m', h1, h2, h5, h6, h7⟩
+
+/-- … for what `finalize_unpruned` returns … -/
+theorem finalize_unpruned_witness_writes (jt : JetTypes) (p : Plan) (program : Bool)
+    (cand : Nat → Option Val) (re : RunEnv) (ar : Arrows) (r : Witnesses)
+    (h : routeU jt p program cand = .ok ar r) :
+    ∀ iv ∈ r, ∀ f : Nat,
+      Prog.elabNode (envOf p ar r re) (f + 1) iv.1 =
+        some ⟨srcOf ar iv.1, tgtOf ar iv.1, Term.witness iv.2⟩ ∧
+      ∀ (m : M) (inp : Val), Pre m (srcOf ar iv.1) (tgtOf ar iv.1) inp →
+        Cap m (Term.witness (a := srcOf ar iv.1) (b := tgtOf ar iv.1) iv.2) →
+        ∃ m', run (Term.witness (a := srcOf ar iv.1) (b := tgtOf ar iv.1) iv.2) m = .ok m' ∧
+          m'.write = advW (tgtOf ar iv.1).bw m.write ∧
+          (padded (tgtOf ar iv.1) iv.2).length = (tgtOf ar iv.1).bw ∧
+          slice m'.cells (wcur m) (tgtOf ar iv.1).bw = padded (tgtOf ar iv.1) iv.2 ∧
+          ∀ i, (i < wcur m ∨ wcur m + (tgtOf ar iv.1).bw ≤ i) → m'.cells i = m.cells i := by
+  obtain ⟨hi, hc, ht⟩ := (finalize_unpruned_ok_or_error jt p program cand).2 ar r h
+  obtain ⟨_, _, _, _, rfl⟩ := infer_sol hi
+  exact witness_write_width p _ (witnessIdx p) r re (by simp [Prog.arrowsOf]) hc (witnessIdx_nodup p)
+    (fun i hi => mem_witnessIdx.1 hi) ht
+
+/-- … and for the pruned program `finalize_pruned` returns: the plan rewritten by the `prune_case`
+table (`Prog.prunePlan`, for the run's record), the re-inferred arrows, the pruned values. -/
+theorem finalize_pruned_witness_writes (jt : JetTypes) (leak : Bool) (p : Plan) (cand : Nat → Option Val)
+    (re : RunEnv) (ar' : Arrows) (r' : Witnesses)
+    (h : finalizePruned jt leak p true cand re = .ok ar' r') (S : List (Nat × Bool)) (cm : Nat → Nat) :
+    ∀ iv ∈ r', ∀ f : Nat,
+      Prog.elabNode (envOf (Prog.prunePlan S re.ids cm p) ar' r' re) (f + 1) iv.1 =
+        some ⟨srcOf ar' iv.1, tgtOf ar' iv.1, Term.witness iv.2⟩ ∧
+      ∀ (m : M) (inp : Val), Pre m (srcOf ar' iv.1) (tgtOf ar' iv.1) inp →
+        Cap m (Term.witness (a := srcOf ar' iv.1) (b := tgtOf ar' iv.1) iv.2) →
+        ∃ m', run (Term.witness (a := srcOf ar' iv.1) (b := tgtOf ar' iv.1) iv.2) m = .ok m' ∧
+          m'.write = advW (tgtOf ar' iv.1).bw m.write ∧
+          (padded (tgtOf ar' iv.1) iv.2).length = (tgtOf ar' iv.1).bw ∧
+          slice m'.cells (wcur m) (tgtOf ar' iv.1).bw = padded (tgtOf ar' iv.1) iv.2 ∧
+          ∀ i, (i < wcur m ∨ wcur m + (tgtOf ar' iv.1).bw ≤ i) → m'.cells i = m.cells i := by
+  obtain ⟨c, hP⟩ := finalizePruned_ok_routeP h
+  obtain ⟨hi, hc, ht⟩ := finalize_pruned_ok_or_error_partial jt leak p true cand c ar' r' hP
+  refine witness_write_width _ ar' _ r' re ?_ hc
+    (List.Pairwise.filter _ (witnessIdx_nodup p)) ?_ ht
+  · rw [inferCut_size hi]; simp [Prog.prunePlan, Prog.pruneList_length]
+  · intro i hi
+    have := mem_witnessIdx.1 (List.mem_filter.1 hi).1
+    rw [Prog.prunePlan_getElem?, this]; rfl
+
+/-- **Execution of the program `finalize_unpruned` returns** (the Bit Machine model of C05, sized by
+`for_program`, run by `exec`): the program has a term `t : 1 ⊢ 1`, and the machine never crashes, returns
+a padded encoding of exactly `eval t ()` when the semantics succeeds and fails when it fails. -/
+theorem finalize_unpruned_executes (jt : JetTypes) (p : Plan) (cand : Nat → Option Val) (re : RunEnv)
+    (hok : planOK p = true) (ar : Arrows) (r : Witnesses) (h : routeU jt p true cand = .ok ar r) :
+    ∃ t : Term .one .one,
+      Prog.elabNode (envOf p ar r re) (p.size + 1) (p.size - 1) = some ⟨.one, .one, t⟩ ∧ WT t ∧
+      match eval t .unit with
+      | some out => ∃ bits, execProgram t .unit = .ok bits ∧ Enc .one out bits
+      | none => execProgram t .unit = .error .fail := by
+  obtain ⟨t, helab, hwt⟩ := routeU_term re hok h
+  exact ⟨t, helab, hwt, exec_spec t .unit .unit hwt⟩
+
 /-! ### non-vacuity
 
 `comp (pair wit unit) (case (take unit) (take (case (take unit) (take unit))))`: the witness node
@@ -376,5 +586,26 @@ example : tgtIs (routeP noJets codeLeaks exPlan true (fun _ => some (.inr (.pair
     (.sum .one .one) = true := by decide +kernel
 example : carries (routeP noJets codeLeaks exPlan true (fun _ => some (.inr (.pair (.inr .unit) .unit))) exCut)
     [(0, .inr .unit)] = true := by decide +kernel
+
+-- `finalize_pruned` with its own run (identities = node indices, no jets): the value `R((1, ε))`
+-- takes the right branches of both cases — nothing of the witness type can go; the value `L(0)`
+-- (converted to `L(ε)`) takes the left branch of the outer case, the inner case disappears and the
+-- witness type shrinks to `1 + 1`
+def exRun : RunEnv := { ids := fun i => i, cmr := #[], jets := fun _ _ => none }
+example : planOK exPlan = true := by decide
+example : carries (finalizePruned noJets codeLeaks exPlan true (fun _ => some (.inr (.pair (.inr .unit) .unit))) exRun)
+    [(0, .inr (.pair (.inr .unit) .unit))] = true := by decide +kernel
+example : carries (finalizePruned noJets codeLeaks exPlan true (fun _ => some (.inl (.inl .unit))) exRun)
+    [(0, .inl .unit)] = true := by decide +kernel
+example : tgtIs (finalizePruned noJets codeLeaks exPlan true (fun _ => some (.inl (.inl .unit))) exRun) 0
+    (.sum .one .one) = true := by decide +kernel
+-- a run that fails (`assertl` meets `R(ε)`): an error, not a program; without a candidate the zero
+-- value `L(ε)` passes the assertion
+def exFailPlan : Plan := #[.witness, .unit, .pair 0 1, .take 1, .assertl 3 0, .comp 2 4]
+example : planOK exFailPlan = true := by decide
+example : finalizePruned noJets codeLeaks exFailPlan true (fun _ => some (.inr .unit)) exRun = .err := by
+  decide +kernel
+example : carries (finalizePruned noJets codeLeaks exFailPlan true (fun _ => none) exRun) [(0, .inl .unit)] = true := by
+  decide +kernel
 
 end Props.C12
